@@ -31,11 +31,17 @@ func specKeySlot(k []byte) int {
 		e = verifrt.Ite(verifrt.And(k[i] == '}', i > s), i, e)
 	}
 	useTag := verifrt.And(s < n, verifrt.And(e < n, e > s+1))
+	// the fold uses a table derived here, at run time, from the bitwise definition above (concrete
+	// computation), so the oracle still shares nothing with the implementation's literal table
+	var tab [256]uint16
+	for i := 0; i < 256; i++ {
+		tab[i] = specCRC16Step(0, byte(i))
+	}
 	var whole, tag uint16
 	for i := 0; i < n; i++ {
-		whole = specCRC16Step(whole, k[i])
+		whole = (whole << 8) ^ tab[byte(whole>>8)^k[i]]
 		in := verifrt.And(i > s, i < e)
-		nt := specCRC16Step(tag, k[i])
+		nt := (tag << 8) ^ tab[byte(tag>>8)^k[i]]
 		tag = uint16(verifrt.Ite(in, int(nt), int(tag)))
 	}
 	return verifrt.Ite(useTag, int(tag&16383), int(whole&16383))
@@ -69,4 +75,10 @@ func HarnessC05Step() {
 	spec := specCRC16Step(uint16(s), b)
 	verifrt.Assert(uint16(next) == spec, "step_low16")
 	verifrt.Cover("end", true)
+}
+
+func init() {
+	verifrt.Register("HarnessC05", func(p []int64) { HarnessC05(int(p[0])) })
+	verifrt.Register("HarnessC05Table", func(p []int64) { HarnessC05Table() })
+	verifrt.Register("HarnessC05Step", func(p []int64) { HarnessC05Step() })
 }
